@@ -91,7 +91,7 @@ func TestC04(t *testing.T) {
 	c.Assume("the wire model (harness/spec) and the packet model (harness/gen/packet.go) are my transcriptions of OF1.3.5 / nicira-ext.h / RFC 791, 826, 8200, 768, 792",
 		"scope: kinds for which the library defines a receiving type; multipart types outside its six, vendor subtypes without payload type and OXM fields DecodeMatchField does not map are generated in C07 only")
 	regressC04(t, c)
-	rapid.Check(t, c04Prop(c))
+	checkRapid(t, c, c04Prop(c))
 }
 
 func c04Prop(c *ev.Collector) func(rt *rapid.T) {
@@ -115,7 +115,7 @@ func c04Prop(c *ev.Collector) func(rt *rapid.T) {
 // FuzzC04: coverage-guided driver of the same property (thorough tier only).
 func FuzzC04(f *testing.F) {
 	c := ev.For("C04")
-	f.Fuzz(rapid.MakeFuzz(c04Prop(c)))
+	f.Fuzz(rapid.MakeFuzz(guardLib(c, c04Prop(c))))
 }
 
 // injectONFFields adds, to some matches of a switch-originated tree, the two
